@@ -1,6 +1,6 @@
 #!/bin/sh
 # usage: run_all.sh [quick|thorough] — every claimed check once on the unchanged tree; evidence is rewritten
-cd /verif
+cd "$(dirname "$0")/.."
 tier=${1:-quick}
 for p in $(python3 -c "import json;print(' '.join(json.load(open('tools/ready.json'))))"); do
   out=$(./check $p $tier 2>&1); rc=$?
